@@ -38,9 +38,21 @@ def slru(a, b, keys, vals, **kw):
                 tc=dict(A=a, B=b), cfg={'a': a, 'b': b}, keys=keys, **kw)
 
 
-def twoq(size, q, g, keys, vals, **kw):
-    return dict(name='2q-%d-%d-%d-k%d-v%d' % (size, q, g, keys, len(vals)), mc=dict(Size=size, Q=q, G=g, Keys=K(keys), Vals=set(vals)),
-                tc=dict(Size=size, Q=q, G=g), cfg={'size': size, 'q': q, 'g': g}, keys=keys, **kw)
+def twoq(size, q, g, keys, vals, rr=None, gr=None, **kw):
+    """rr / gr: explicit ratios handed to the builder (otherwise the harness derives (n + 1/2) / size, or exactly 0.0 / 1.0 at the
+    ends); they must floor to q / g: used for the non-zero ratios whose quota floors to 0 (C08's quantifier names them)"""
+    cfg = {'size': size, 'q': q, 'g': g}
+    name = '2q-%d-%d-%d-k%d-v%d' % (size, q, g, keys, len(vals))
+    if rr is not None:
+        assert int(size * rr) == q
+        cfg['rr'] = rr
+        name += '-rr%g' % rr
+    if gr is not None:
+        assert int(size * gr) == g
+        cfg['gr'] = gr
+        name += '-gr%g' % gr
+    return dict(name=name, mc=dict(Size=size, Q=q, G=g, Keys=K(keys), Vals=set(vals)),
+                tc=dict(Size=size, Q=q, G=g), cfg=cfg, keys=keys, **kw)
 
 
 def arc(size, keys, vals, **kw):
@@ -86,11 +98,11 @@ INSTANCES = {
     },
     '2q': {
         'quick': [twoq(1, 0, 1, 3, [1, 2], random=(10, 40)),
-                  twoq(2, 0, 1, 4, [1], random=(10, 50)),
+                  twoq(2, 0, 1, 4, [1], rr=0.49, gr=0.75, random=(10, 50)),       # non-zero ratio, quota floors to 0
                   twoq(2, 2, 1, 4, [1], random=(10, 50)),
                   twoq(3, 1, 2, 4, [1], random=(20, 80))],
         'thorough': [twoq(1, 0, 1, 3, [1, 2]), twoq(1, 1, 1, 3, [1, 2]), twoq(2, 0, 1, 4, [1, 2]), twoq(2, 2, 1, 4, [1, 2]),
-                     twoq(2, 1, 2, 5, [1, 2], random=(100, 100), max_states=12000), twoq(3, 0, 1, 5, [1]), twoq(3, 1, 2, 5, [1, 2], random=(200, 150), max_states=12000),
+                     twoq(2, 1, 2, 5, [1, 2], random=(100, 100), max_states=12000), twoq(3, 0, 1, 5, [1], rr=0.25, gr=0.5), twoq(3, 1, 2, 5, [1, 2], random=(200, 150), max_states=12000),
                      twoq(3, 3, 3, 5, [1]), twoq(4, 1, 2, 6, [1], random=(200, 200)), twoq(4, 2, 4, 6, [1], max_states=12000)],
     },
     'arc': {
